@@ -84,17 +84,17 @@ func (m *c19Mgr) AuthoriseNewSession([]byte, usermanager.AuthorisationInfo) erro
 }
 
 type c19UScn struct {
-	ID       int    `json:"id"`
-	Up       int64  `json:"up_rate"`   // rx of the server
-	Down     int64  `json:"down_rate"` // tx of the server
-	Sessions int    `json:"sessions"`
-	Size     int    `json:"size"`
-	DurS     int    `json:"dur_s"`
-	Racing   int    `json:"racing_first_connections"` // > 0: that many GetUser calls for the fresh UID overlap (= Sessions)
+	ID       int   `json:"id"`
+	Up       int64 `json:"up_rate"`   // rx of the server
+	Down     int64 `json:"down_rate"` // tx of the server
+	Sessions int   `json:"sessions"`
+	Size     int   `json:"size"`
+	DurS     int   `json:"dur_s"`
+	Racing   int   `json:"racing_first_connections"` // > 0: that many GetUser calls for the fresh UID overlap (= Sessions)
 	// Terminate: at the end the panel terminates the user (closeAllSessions) while every session is still writing and the
 	// bucket is empty: one closing notice per session goes out, metered like everything else
-	Terminate bool `json:"terminate,omitempty"`
-	Via      string `json:"via"`
+	Terminate bool   `json:"terminate,omitempty"`
+	Via       string `json:"via"`
 }
 
 type c19UInfo struct {
